@@ -166,7 +166,16 @@ impl Search {
 
         #[cfg(rce_verif)]
         crate::verif_hooks::sched("search:pre_best");
-        self.log(format!("bestmove {}", self.info.best_move.unwrap()).as_str());
+        // No iteration was completed (tiny node or time budget, immediate stop): any legal
+        // move is better than no answer
+        let best_move = self
+            .info
+            .best_move
+            .or_else(|| self.original_board.get_legal_moves().first().copied());
+        match best_move {
+            Some(best_move) => self.log(format!("bestmove {best_move}").as_str()),
+            None => self.log("bestmove 0000"),
+        }
         #[cfg(rce_verif)]
         crate::verif_hooks::sched("search:post_best");
     }
